@@ -6,6 +6,7 @@ import (
 	"fmt"
 	"math"
 	osexec "os/exec"
+	"regexp"
 	"sort"
 	"strconv"
 	"strings"
@@ -131,18 +132,11 @@ func isIndexAtLen(msg string) bool {
 	return false
 }
 
-// the formula's last token (or the last token of a parenthesised group) is a
-// unary operator/function with nothing after it
-func endsInUnaryOp(formula string) bool {
-	f := strings.TrimRight(formula, " )")
-	if f == "" {
-		return false
-	}
-	if strings.HasSuffix(f, "-") || strings.HasSuffix(f, "!") {
-		return true
-	}
-	return false
-}
+// some (sub)formula ends in a unary operator character: "-" or "!" followed,
+// blanks aside, by a closing parenthesis or the end of the formula
+var reDanglingUnary = regexp.MustCompile(`[-!] *(\)|$)`)
+
+func endsInUnaryOp(formula string) bool { return reDanglingUnary.MatchString(formula) }
 
 // ---------------------------------------------------------------- pinned witnesses
 
